@@ -75,7 +75,7 @@ theorem mapIds_remove (T : Nat) (hT : legalThreshold T = true) (D : DigestFn (r 
     obtain ⟨k1, m1, c1, heq, _, _, hcnt, hinv, _, _, hty, hseed⟩ := hs
     rw [heq] at hr
     cases hr
-    refine ⟨⟨hinv, hids'⟩, hrid, haddr, hle, ⟨hcfg.1, hcfg.2.1, by rw [hcfg.2.2, haddr]⟩, hcnt, ?_, hty, hseed⟩
+    refine ⟨⟨hinv, hids'⟩, hrid, haddr, hle, ⟨hcfg.1, hcfg.2.1, by rw [hcfg.2.2, haddr]⟩, (by omega), ?_, hty, hseed⟩
     have hmem := mem_of_dictLookup_some h.1.allKeyOk hk hd
     rw [h.1.count_eq]
     exact List.length_pos_of_mem hmem
@@ -256,7 +256,7 @@ theorem map_inv_remove_full (T : Nat) (hT : legalThreshold T = true) (D : Digest
     obtain ⟨k1, m1, c1, heq, _, _, hcnt, hinv, hctx, hrid, hty, hseed⟩ := hs
     rw [heq] at hr
     cases hr
-    exact ⟨hinv, hctx, hrid, ⟨hcfg.1, hcfg.2.1, by rw [hcfg.2.2]; unfold OMap.addr; rw [hrid]⟩, hcnt, hty, hseed⟩
+    exact ⟨hinv, hctx, hrid, ⟨hcfg.1, hcfg.2.1, by rw [hcfg.2.2]; unfold OMap.addr; rw [hrid]⟩, (by omega), hty, hseed⟩
 
 /-- `map_inv_popIterate` with the counter hypothesis, the root identifier, and emptiness. -/
 theorem map_inv_popIterate_full (T : Nat) (hT : legalThreshold T = true) (D : DigestFn (r + 1)) (m : OMap r)
